@@ -810,7 +810,7 @@ def run(chk, replay=None):
         h = replay_history(replay['input']['ops'])
         print('replay: ops=%s -> %s' % (json.dumps(replay['input']['ops']), h.orc.failed))
         return 1 if h.orc.failed else 0
-    chk.prove(drivers=['drv_domdoc'])
+    chk.prove(modules=['OdfModel.Props.C09', 'OdfModel.Props.C09Load'], drivers=['drv_domdoc'])
     drv = chk.driver('drv_domdoc')
     thorough = chk.tier == 'thorough'
     nhist = 2000 if thorough else 420
